@@ -843,4 +843,24 @@ pub mod verif_hooks {
         }
         s
     }
+
+
+    /// Per table (GSUB, GPOS) what `hb_ot_map_builder_t::new` selected:
+    /// (found_script, script_index, chosen_script, lang_index).
+    pub fn builder_selection(
+        face: &hb_font_t,
+        script: Option<Script>,
+        language: Option<&Language>,
+    ) -> [(bool, Option<u16>, Option<u32>, Option<u16>); 2] {
+        let b = hb_ot_map_builder_t::new(face, script, language);
+        let f = |i: usize| {
+            (
+                b.found_script[i],
+                b.script_index[i],
+                b.chosen_script[i].map(|t| t.as_u32()),
+                b.lang_index[i],
+            )
+        };
+        [f(0), f(1)]
+    }
 }
